@@ -7,6 +7,15 @@ Open Scope N_scope.
 Definition rhs_string (r : rhs_expr) : str :=
   match r with RNode n => assign_expr n | RLiteral t => t end.
 
+(** loopVars: index and element variable of a slice copy loop; they must not shadow the
+    variable the left-hand side starts with *)
+Fixpoint until_dot (s : str) : str :=
+  match s with [] => [] | c :: s' => if c =? 46 then [] else c :: until_dot s' end.
+Definition loop_vars (lhs : str) : str * str :=
+  let root := until_dot lhs in
+  (if str_eqb root (s2b "i") then s2b "idx" else s2b "i",
+   if str_eqb root (s2b "e") then s2b "elem" else s2b "e").
+
 (** Assignment.String() *)
 Fixpoint assignment_string (a : assignment) : str :=
   match a with
@@ -21,13 +30,15 @@ Fixpoint assignment_string (a : assignment) : str :=
   | ASliceLoop l r typ =>
       s2b "if " ++ assign_expr r ++ s2b " != nil {" ++ nl ++
       assign_expr l ++ s2b " = make(" ++ typ ++ s2b ", len(" ++ assign_expr r ++ s2b "))" ++ nl ++
-      s2b "for i, e := range " ++ assign_expr r ++ s2b "{" ++ nl ++
-      assign_expr l ++ s2b "[i] = e" ++ nl ++ s2b "}" ++ nl ++ s2b "}" ++ nl
+      let '(iv, ev) := loop_vars (assign_expr l) in
+      s2b "for " ++ iv ++ s2b ", " ++ ev ++ s2b " := range " ++ assign_expr r ++ s2b "{" ++ nl ++
+      assign_expr l ++ s2b "[" ++ iv ++ s2b "] = " ++ ev ++ nl ++ s2b "}" ++ nl ++ s2b "}" ++ nl
   | ASliceCast l r typ cast =>
       s2b "if " ++ assign_expr r ++ s2b " != nil {" ++ nl ++
       assign_expr l ++ s2b " = make(" ++ typ ++ s2b ", len(" ++ assign_expr r ++ s2b "))" ++ nl ++
-      s2b "for i, e := range " ++ assign_expr r ++ s2b "{" ++ nl ++
-      assign_expr l ++ s2b "[i] = " ++ cast ++ s2b "(e)" ++ nl ++ s2b "}" ++ nl ++ s2b "}" ++ nl
+      let '(iv, ev) := loop_vars (assign_expr l) in
+      s2b "for " ++ iv ++ s2b ", " ++ ev ++ s2b " := range " ++ assign_expr r ++ s2b "{" ++ nl ++
+      assign_expr l ++ s2b "[" ++ iv ++ s2b "] = " ++ cast ++ s2b "(" ++ ev ++ s2b ")" ++ nl ++ s2b "}" ++ nl ++ s2b "}" ++ nl
   end.
 
 (** Assignment.RetError() *)
